@@ -35,6 +35,9 @@ def run(tier):
   cc.expect_violation(rep, 'MC_Refs_dev', 'C04_Refs', key='control_DevKwEval_violates')
   cc.model_check(rep, 'MC_Refs_getbindings', timeout=900)
   cc.model_check(rep, 'MC_Refs_kw', timeout=900)       # keyword-only / catch-all names overridden by caller keywords
+  # scoped references under every ambient scope (shortest witness per (call, bindings, ambient scope))
+  cc.replay_scenarios(rep, 'GinCore_Scen_refscope', max_files=300 if tier == 'quick' else 2000, nontrivial=_nontrivial,
+                      depth=5 if tier == 'quick' else 6, timeout=200 if tier == 'quick' else 900)
   if tier == 'thorough':
     cc.replay_scenarios(rep, 'GinCore_Scen_refs', max_files=1500, nontrivial=_nontrivial, depth=4, timeout=1200)
   n = 500 if tier == 'quick' else 6000
